@@ -6,6 +6,7 @@ CONSTANTS
   Offsets = {0, 1}
   Sizes = {1, 2}
   Kinds = {1, 2}
+  PPs = {2}
   MaxPre = 1
   MaxB = 2
   Widen = {FALSE, TRUE}
